@@ -844,3 +844,164 @@ def c15_r15(ctx):
                       "raise TypeError", loc=K.loc)
     if n < 20:
         raise AnalysisError("only %d query classes" % n)
+
+
+@rule("C15", "R16", "K2", "Wildcard.normalize rewrites to Term/Prefix only a text free of every glob metacharacter the class declares",
+      min_instances=1, also=("C01",),
+      clause="Wildcard.SPECIAL_CHARS (the set the class itself uses to find the literal prefix of a pattern) lists the characters "
+             "fnmatch treats as operators. On every path of normalize() to `return Term(...)` each of them is known to be absent from "
+             "the text; on every path to `return Prefix(...)` each of them other than the trailing `*` is. `[ab]` without the check "
+             "is rewritten to the literal term '[ab]' and stops matching 'a' and 'b'. Idioms that test the whole set at once "
+             "(any(...SPECIAL_CHARS...), set intersection) are accepted as covering it.")
+def c15_r16(ctx):
+    prog = ctx.prog
+    cls = prog.cls("query.terms.Wildcard")
+    f = prog.method("query.terms.Wildcard", "normalize", inherited=False)
+    ctx.saw(f)
+    sc = cls.attrs.get("SPECIAL_CHARS")
+    chars = None
+    if sc is not None:
+        for x in ast.walk(sc):
+            if isinstance(x, ast.Constant) and isinstance(x.value, str):
+                chars = sorted(set(x.value))
+    if not chars:
+        raise AnalysisError("Wildcard.SPECIAL_CHARS is no longer a literal set of characters")
+    fa = guards.Facts(f, textfn=lambda e: norm.deep_canon(e, f.node))
+    n = 0
+    for node in fa.g.nodes:
+        a = node.ast
+        if not isinstance(a, ast.Return) or a.value is None:
+            continue
+        v = norm.inline_defs(a.value, f.node)
+        if not (isinstance(v, ast.Call) and getattr(v.func, "id", getattr(v.func, "attr", None)) in ("Term", "Prefix")):
+            continue
+        kind = getattr(v.func, "id", None) or v.func.attr
+        facts = fa.at(node) or set()
+        n += 1
+        whole = any("SPECIAL_CHARS" in t for _p, t in facts)
+        missing = []
+        for c in chars:
+            if kind == "Prefix" and c == "*":
+                continue
+            want = "(%r in self.text)" % c
+            if ("F", want) not in facts and ("F", want.replace("'", '"')) not in facts:
+                missing.append(c)
+        ok = whole or not missing
+        ctx.ob(f, ok, "the text rewritten to %s holds none of the metacharacters %s" % (kind, "".join(chars)),
+               detail="" if ok else "not excluded on this path: %s -- a pattern using it is rewritten to a literal %s and changes what it "
+                                    "matches" % (" ".join(repr(c) for c in missing), kind),
+               loc=ctx.nodeloc(f, a))
+    if n == 0:
+        ctx.ob(f, True, "normalize() no longer rewrites a Wildcard to Term or Prefix")
+
+
+@rule("C15", "R17", "K2", "a rewrite reads `.boost` of a sub-query it did not build only where the sub-query is known to have one",
+      min_instances=1,
+      clause="Not every query class binds `boost` (span queries, NestedParent/NestedChildren, ConstantScoreQuery, WeightingQuery, "
+             "ColumnQuery do not; Query.all_tokens() says so itself with `hasattr(self, 'boost')`). In whoosh/query/*.py every read of "
+             "`x.boost` where x is a sub-query taken from a clause list is guarded by hasattr(x, 'boost') or by an isinstance test "
+             "against a class that binds it (including `isinstance(x, self.__class__)` in a class that does). Otherwise normalize() "
+             "of a nested Or/And holding such a clause raises AttributeError instead of returning an equivalent query.")
+def c15_r17(ctx):
+    prog = ctx.prog
+    qbase = prog.cls("query.qcore.Query")
+
+    def binds_boost(c):
+        if isinstance(c, str):
+            return False
+        return any((not isinstance(k, str)) and ("boost" in k.attrs or "boost" in self_attr_assignments(prog, k, inherited=False))
+                   for k in prog.mro(c))
+    n = 0
+    for f in sorted(prog.functions.values(), key=lambda f: f.qualname):
+        if not f.module.name.startswith("whoosh.query."):
+            continue
+        reads = [x for x in ast.walk(f.node) if isinstance(x, ast.Attribute) and x.attr == "boost" and isinstance(x.ctx, ast.Load)
+                 and isinstance(x.value, ast.Name) and x.value.id != "self"]
+        if not reads:
+            continue
+        parents = {}
+        for p in ast.walk(f.node):
+            for ch in ast.iter_child_nodes(p):
+                parents[id(ch)] = p
+        # names bound to objects built here (q = self.copy(), q = Cls(...), q = self.__class__(...)) carry the builder's type
+        built = set()
+        for st in ast.walk(f.node):
+            if isinstance(st, ast.Assign) and isinstance(st.value, ast.Call):
+                fn = st.value.func
+                if (isinstance(fn, ast.Attribute) and fn.attr in ("copy", "__class__", "with_boost", "normalize") and
+                        norm.canon(fn.value).startswith("self")) or (isinstance(fn, ast.Name) and fn.id[:1].isupper()):
+                    for t in st.targets:
+                        if isinstance(t, ast.Name):
+                            built.add(t.id)
+        fa = None
+        for x in reads:
+            name = x.value.id
+            if name in built:
+                continue
+            # only names that come out of a clause list (loop / comprehension variable, element taken by index) are of interest:
+            # `other` in __eq__ is compared behind a class test, parameters carry their caller's knowledge
+            src_ok = False
+            for st in ast.walk(f.node):
+                if isinstance(st, (ast.For, ast.comprehension)):
+                    if name in norm.names_in(st.target):
+                        src_ok = True
+                elif isinstance(st, ast.Assign) and any(isinstance(t, ast.Name) and t.id == name for t in st.targets):
+                    if isinstance(st.value, ast.Subscript):
+                        src_ok = True
+            if not src_ok:
+                continue
+            n += 1
+            ctx.saw(f)
+
+            def atom_ok(pol, a):
+                if pol != "T" or not isinstance(a, ast.Call) or not isinstance(a.func, ast.Name):
+                    return False
+                if a.func.id == "hasattr" and len(a.args) == 2 and norm.canon(a.args[0]) == name \
+                        and isinstance(a.args[1], ast.Constant) and a.args[1].value == "boost":
+                    return True
+                if a.func.id == "isinstance" and len(a.args) == 2 and norm.canon(a.args[0]) == name:
+                    t = a.args[1]
+                    if norm.canon(t) in ("self.__class__", "type(self)"):
+                        return f.cls is not None and binds_boost(f.cls)
+                    elts = t.elts if isinstance(t, ast.Tuple) else [t]
+                    cs = [prog.resolve_in_func(f, e) for e in elts]
+                    return bool(cs) and all(c is not None and hasattr(c, "methods") and binds_boost(c) for c in cs)
+                return False
+            ok = False
+            # expression-level guards: IfExp test, `a and b`, comprehension ifs, enclosing if statements
+            cur = x
+            while id(cur) in parents and not ok:
+                par = parents[id(cur)]
+                tests = []
+                if isinstance(par, ast.IfExp) and cur is par.body:
+                    tests.append(par.test)
+                elif isinstance(par, ast.BoolOp) and isinstance(par.op, ast.And):
+                    tests.extend(par.values[:par.values.index(cur)] if cur in par.values else [])
+                elif isinstance(par, (ast.ListComp, ast.GeneratorExp, ast.SetComp, ast.DictComp)):
+                    for g in par.generators:
+                        tests.extend(g.ifs)
+                elif isinstance(par, (ast.If, ast.While)) and cur in par.body:
+                    tests.append(par.test)
+                for t in tests:
+                    if any(atom_ok(pol, a) for pol, a in guards.atoms(t, "T")):
+                        ok = True
+                cur = par
+            if not ok:
+                if fa is None:
+                    fa = guards.Facts(f)
+                node = fa.node_of(x)
+                facts = fa.at(node) if node is not None else None
+                for pol, text in (facts or ()):
+                    try:
+                        a = norm.parse_expr(text)
+                    except Exception:
+                        continue
+                    if atom_ok(pol, a):
+                        ok = True
+            ctx.ob(f, ok, "`%s.boost` is read where %s is known to have a boost" % (name, name),
+                   detail="" if ok else "nothing on the way to `%s` establishes hasattr(%s, 'boost') or a class that binds it: "
+                                        "AttributeError for span, nested, constant-score and column queries"
+                                        % (norm.canon(parents.get(id(x), x)), name),
+                   loc=ctx.nodeloc(f, x))
+    if n == 0:
+        ctx.ob("whoosh.query", True, "no rewrite reads the boost of a foreign sub-query")
